@@ -275,3 +275,79 @@ def badopt_steps(sw, paths, quick, rnd):
         for o, v in pairs:
             kw = {o: v}
             sw.step(path, f'replace("zz", {o}={v!r})', lambda r, n, kw=kw: n.replace('zz', **kw))
+
+
+def _redundant_pars(src, ploc):
+    """are the parentheses at the ends of `ploc` redundant: does the program without them parse to the same structure?"""
+    if not ploc:
+        return False
+    lines = src.split('\n')
+    ln, col, eln, ecol = ploc[:4]
+    try:
+        if lines[ln][col] != '(' or lines[eln][ecol - 1] != ')':
+            return False
+        lines[eln] = lines[eln][:ecol - 1] + ' ' + lines[eln][ecol:]
+        lines[ln] = lines[ln][:col] + ' ' + lines[ln][col + 1:]
+        return ast.dump(ast.parse('\n'.join(lines))) == ast.dump(ast.parse(src))
+    except (SyntaxError, IndexError):
+        return False
+
+
+def pars_steps(sw, paths, quick, rnd):
+    """C02: par() / unpar() are edits too - afterwards every query must answer as on a fresh parse of the new source
+    (which must exist: the source has to parse).  Every parenthesised expression is unparenthesised, sampled bare
+    expressions are parenthesised."""
+    from contracts import b_query
+    root = sw.fresh()
+    cands = []
+    for path, cat, cls in paths:
+        if cat != 'expr':
+            continue
+        n = follow(root, path)
+        try:
+            npars = n.pars().n if n and n.loc is not None else 0
+        except Exception:
+            continue
+        cands.append((path, npars))
+    un = [p for p, k in cands if k]
+    bare = [p for p, k in cands if not k]
+    kk = 6 if quick else 40
+    if len(bare) > kk:
+        bare = rnd.sample(bare, kk)
+    for path, opname, fn in ([(p, 'unpar()', lambda n: n.unpar()) for p in un] +
+                             [(p, 'par(force=True)', lambda n: n.par(force=True)) for p in bare]):
+        r = sw.fresh()
+        n = follow(r, path)
+        if not n:
+            continue
+        sw.ev += 1
+        sw.pre_edit(r)
+        key = f'{opname.split(chr(40))[0]}:{sw.name}:{path}'
+        s0 = ast.dump(r.a)
+        try:
+            n0loc = tuple(n.pars())
+        except Exception:
+            n0loc = None
+        try:
+            fn(n)
+        except Exception:
+            sw.counts['refused'] += 1
+            sw.distinct.add(('pars-refused', path, opname))
+            continue
+        sw.counts['ok'] += 1
+        sw.distinct.add(('pars', path, opname))
+        try:
+            t = ast.parse(r.src)
+            if opname == 'unpar()' and ast.dump(t) != s0:
+                # the parentheses were needed (unpar() removes them regardless, the meaning changes): not judged
+                sw.distinct.add(('pars-needed', path, opname))
+                continue
+        except SyntaxError as e:
+            if opname == 'unpar()' and not _redundant_pars(sw.src, n0loc):
+                continue
+            sw.fail('C02', key + ':unparsable', f'after {opname} at {path} the source no longer parses ({e.msg}): no fresh '
+                    'tree exists to agree with', src_after=r.src[:300])
+            continue
+        q = b_query.compare(r)
+        if q:
+            sw.fail('C02', key, f'after {opname} at {path}: {q}', src_after=r.src[:300])
